@@ -16,5 +16,6 @@ TECHNIQUE = {
     'C12': 'static matcher analysis: key-coverage dataflow between addMatch, Rule.add and Rule.match; separator-aware prefix lint; decision tables of the namespace and argument-path tests by path enumeration and constant folding; rule-text/local-rule agreement',
     'C16': 'static ownership and announcement rules by path enumeration; descendant and child tests extracted and evaluated by constant folding on a fixed table of path pairs; separator-aware prefix lint',
     'C09': 'static liveness/cleanup obligations: lifecycle-stage path enumeration of connectionLost, resolver idempotence, endpoint-walk shape, live-container iteration lint with positive control, proxy-registration on all construction paths',
+    'C15': 'static writer/reader agreement: XML template vocabulary vs attributes indexed by the SAX handler, access and direction values pushed through the reader by constant folding, counter/signature pairing by path enumeration, reuse truth table',
     'C02': 'static conformance check of the extracted codec model against specification tables; padding function interpreted in the congruence domain mod 8',
 }
